@@ -24,16 +24,17 @@ read-only queries interleaved anywhere change nothing: `C01_queries_pure` below.
 API, parameterised by an arbitrary schedule of (bytes presented, buffer size, give-up) triples — and the
 theorems `C01_exchange_any`, `C01_exchange_outcome`, `C01_exchange_independent`: every schedule that
 completes the exchange produces the one outcome `SendSpec` / `recvSpec`, consumes exactly the response
-message (plus the interim `100`), and ends in the state the status dictates; `C01_recv_live`: once
-everything has arrived no schedule can wedge the receive side.
+message (plus the interim `100`), and ends in the state the status dictates; `C01_recv_live` /
+`C01_exchange_live`: once everything has arrived no schedule can wedge the flow.
 
 What the composed theorems do **not** cover (the claim stays `partial`; these are decided by the
-correspondence and the cross-schedule oracle on the implementation): close-delimited response bodies
-(no end on the wire), redirect chains / more than one exchange on the connection (the first exchange's
-`tail` is the next one's stream — `C01_exchange_outcome` gives exactly that hand-over — but the chain is
-not composed), responses that refuse an `Expect` request (there the outcome legitimately depends on
-whether the caller gave up first), malformed streams, 3xx heads with `Location` under the partial-redirect
-fallback (finding D10, owned by C05), and liveness of the send side. -/
+correspondence and the cross-schedule oracle on the implementation): responses that refuse an `Expect`
+request (there the outcome legitimately depends on whether the caller gave up first), malformed streams,
+3xx heads with `Location` under the partial-redirect fallback (finding D10, owned by C05), and — for
+redirect chains — the composition itself: `C01_follow_setup` shows each hop is again a covered start and
+`C01_pipeline` the hand-over of the stream position, the chain as one run is not stated. Close-delimited
+response bodies are covered when nothing follows them on the connection (`b0.isClose → tail = []`: the
+caller reads until the connection has ended); `C01_exchange_live` covers both directions. -/
 
 /-- the read-only queries of the API -/
 def Op.isQuery : Op → Bool
@@ -77,24 +78,24 @@ any bytes `tail` of a next message. Close-delimited bodies have no end on the wi
     than the response message; the body delivered so far is a prefix of the payload; the head handed out
     is the parsed `H` or not yet there; and a run that is not complete is still in a receive state. -/
 theorem C01_recv_any (hack : Bool) (H : Head) (b0 : BPos) (tail : Bytes) (f0 : Flow) (S : RecvSetup hack H b0 f0)
-    (σ : List IoStep) :
+    (htail : b0.isClose = true → tail = []) (σ : List IoStep) :
     (recvRun hack (H.enc ++ b0.enc ++ tail) f0 σ).2.faults = 0 ∧
     (recvRun hack (H.enc ++ b0.enc ++ tail) f0 σ).2.consumed ≤ H.enc.length + b0.enc.length ∧
     (recvRun hack (H.enc ++ b0.enc ++ tail) f0 σ).2.body <+: b0.payload ∧
     ((recvRun hack (H.enc ++ b0.enc ++ tail) f0 σ).2.head = none ∨
      (recvRun hack (H.enc ++ b0.enc ++ tail) f0 σ).2.head = some H.parsed) := by
-  obtain ⟨h1, h2, h3, h4, _⟩ := recv_safe_of_inv H b0 tail f0 _ _ S.hst (recv_run_inv hack H b0 tail f0 S σ)
+  obtain ⟨h1, h2, h3, h4, _⟩ := recv_safe_of_inv H b0 tail f0 _ _ S.hst (recv_run_inv hack H b0 tail f0 S htail σ)
   exact ⟨h1, h2, h3, h4⟩
 
 /-- **C01 (receive side, outcome).** Every schedule that completes the receive side produces the one
     outcome `recvSpec`: exactly the response message consumed (the next message untouched), the parsed
     head, the whole payload, no fault — and the successor state the status dictates. -/
 theorem C01_recv_outcome (hack : Bool) (H : Head) (b0 : BPos) (tail : Bytes) (f0 : Flow) (S : RecvSetup hack H b0 f0)
-    (σ : List IoStep) (hd : recvDone (recvRun hack (H.enc ++ b0.enc ++ tail) f0 σ).1 = true) :
+    (htail : b0.isClose = true → tail = []) (σ : List IoStep) (hd : recvDone (recvRun hack (H.enc ++ b0.enc ++ tail) f0 σ).1 = true) :
     (recvRun hack (H.enc ++ b0.enc ++ tail) f0 σ).2 = recvSpec H b0 ∧
     (recvRun hack (H.enc ++ b0.enc ++ tail) f0 σ).1.st = terminalSt H ∧
     (H.enc ++ b0.enc ++ tail).drop (recvRun hack (H.enc ++ b0.enc ++ tail) f0 σ).2.consumed = tail := by
-  obtain ⟨h1, h2⟩ := recvSpec_of_done H b0 tail f0 _ _ S.hst (recv_run_inv hack H b0 tail f0 S σ) hd
+  obtain ⟨h1, h2⟩ := recvSpec_of_done H b0 tail f0 _ _ S.hst (recv_run_inv hack H b0 tail f0 S htail σ) hd
   refine ⟨h1, h2, ?_⟩
   rw [h1]
   show (H.enc ++ b0.enc ++ tail).drop (H.enc.length + b0.enc.length) = tail
@@ -103,25 +104,25 @@ theorem C01_recv_outcome (hack : Bool) (H : Head) (b0 : BPos) (tail : Bytes) (f0
 /-- **C01 (receive side, independence).** Any two complete schedules — however the bytes were split,
     whatever the buffer sizes — observe the same thing and end in the same state. -/
 theorem C01_recv_independent (hack : Bool) (H : Head) (b0 : BPos) (tail : Bytes) (f0 : Flow) (S : RecvSetup hack H b0 f0)
-    (σ₁ σ₂ : List IoStep)
+    (htail : b0.isClose = true → tail = []) (σ₁ σ₂ : List IoStep)
     (h1 : recvDone (recvRun hack (H.enc ++ b0.enc ++ tail) f0 σ₁).1 = true)
     (h2 : recvDone (recvRun hack (H.enc ++ b0.enc ++ tail) f0 σ₂).1 = true) :
     (recvRun hack (H.enc ++ b0.enc ++ tail) f0 σ₁).2 = (recvRun hack (H.enc ++ b0.enc ++ tail) f0 σ₂).2 ∧
     (recvRun hack (H.enc ++ b0.enc ++ tail) f0 σ₁).1.st = (recvRun hack (H.enc ++ b0.enc ++ tail) f0 σ₂).1.st := by
-  obtain ⟨a1, a2, _⟩ := C01_recv_outcome hack H b0 tail f0 S σ₁ h1
-  obtain ⟨b1, b2, _⟩ := C01_recv_outcome hack H b0 tail f0 S σ₂ h2
+  obtain ⟨a1, a2, _⟩ := C01_recv_outcome hack H b0 tail f0 S htail σ₁ h1
+  obtain ⟨b1, b2, _⟩ := C01_recv_outcome hack H b0 tail f0 S htail σ₂ h2
   exact ⟨by rw [a1, b1], by rw [a2, b2]⟩
 
 /-- **C01 (receive side, completion).** After any schedule whatsoever, once the whole message has
     arrived, `|message| + 2` further calls with at least one byte of output space complete the receive
     side: no schedule can wedge the flow. -/
 theorem C01_recv_live (hack : Bool) (H : Head) (b0 : BPos) (tail : Bytes) (f0 : Flow) (S : RecvSetup hack H b0 f0)
-    (σ full : List IoStep) (hfull : ∀ s ∈ full, H.enc.length + b0.enc.length ≤ s.m ∧ 1 ≤ s.cap)
+    (htail : b0.isClose = true → tail = []) (σ full : List IoStep) (hfull : ∀ s ∈ full, H.enc.length + b0.enc.length ≤ s.m ∧ 1 ≤ s.cap)
     (hlen : H.enc.length + b0.enc.length + 2 ≤ full.length) :
     recvDone (recvRun hack (H.enc ++ b0.enc ++ tail) f0 (σ ++ full)).1 = true := by
   unfold recvRun
   rw [List.foldl_append]
-  have hinv := recv_run_inv hack H b0 tail f0 S σ
+  have hinv := recv_run_inv hack H b0 tail f0 S htail σ
   unfold recvRun at hinv
   refine recv_live_aux hack H b0 tail f0 S (H.enc.length + b0.enc.length + 1) _ hinv ?_ full hfull hlen
   right
@@ -188,14 +189,14 @@ theorem pend_safe (f0 : Flow) (pre : Bytes) (aw : Bool) (o : RecvObs) (h : Pend 
     there is; and the receive side is within its bounds (nothing consumed beyond the interim response and
     the message, body a prefix of the payload, no fault). -/
 theorem C01_exchange_any (hack : Bool) (f0 : Flow) (r : AReq) (wr0 : BodyWriter) (P : Bytes) (I H : Head) (b0 : BPos)
-    (tail pre : Bytes) (X : XSetup hack f0 r wr0 P I H b0 pre) (σ : List IoStep) :
+    (tail pre : Bytes) (X : XSetup hack f0 r wr0 P I H b0 pre) (htail : b0.isClose = true → tail = []) (σ : List IoStep) :
     ((xRun hack P (pre ++ (H.enc ++ b0.enc ++ tail)) f0 σ).2.1.wire <+: renderHead r ∨
       ∃ bw, (xRun hack P (pre ++ (H.enc ++ b0.enc ++ tail)) f0 σ).2.1.wire = renderHead r ++ bw) ∧
     (xRun hack P (pre ++ (H.enc ++ b0.enc ++ tail)) f0 σ).2.1.off ≤ P.length ∧
     (xRun hack P (pre ++ (H.enc ++ b0.enc ++ tail)) f0 σ).2.2.faults = 0 ∧
     (xRun hack P (pre ++ (H.enc ++ b0.enc ++ tail)) f0 σ).2.2.consumed ≤ pre.length + (H.enc.length + b0.enc.length) ∧
     (xRun hack P (pre ++ (H.enc ++ b0.enc ++ tail)) f0 σ).2.2.body <+: b0.payload := by
-  rcases x_run_inv hack f0 r wr0 P I H b0 tail pre X σ with
+  rcases x_run_inv hack f0 r wr0 P I H b0 tail pre X htail σ with
     ⟨hAB, ho⟩ | ⟨_, _, hA, hp⟩ | ⟨hC, hp⟩ | ⟨_, _, _, _, ho, _, _, hspec, hoff⟩ | ⟨hw, hoff, f1, o', S, hsh, hri⟩
   · have hw : (xRun hack P (pre ++ (H.enc ++ b0.enc ++ tail)) f0 σ).2.1.wire <+: renderHead r ∧
         (xRun hack P (pre ++ (H.enc ++ b0.enc ++ tail)) f0 σ).2.1.off = 0 := by
@@ -227,14 +228,14 @@ theorem C01_exchange_any (hack : Bool) (f0 : Flow) (r : AReq) (wr0 : BodyWriter)
     is what remains; has handed out the parsed final head — never the interim one — and the whole
     response payload; and has ended in the state the status dictates. -/
 theorem C01_exchange_outcome (hack : Bool) (f0 : Flow) (r : AReq) (wr0 : BodyWriter) (P : Bytes) (I H : Head) (b0 : BPos)
-    (tail pre : Bytes) (X : XSetup hack f0 r wr0 P I H b0 pre) (σ : List IoStep)
+    (tail pre : Bytes) (X : XSetup hack f0 r wr0 P I H b0 pre) (htail : b0.isClose = true → tail = []) (σ : List IoStep)
     (hd : recvDone (xRun hack P (pre ++ (H.enc ++ b0.enc ++ tail)) f0 σ).1 = true) :
     SendSpec r wr0 P (xRun hack P (pre ++ (H.enc ++ b0.enc ++ tail)) f0 σ).2.1.wire ∧
     (xRun hack P (pre ++ (H.enc ++ b0.enc ++ tail)) f0 σ).2.1.off = P.length ∧
     (xRun hack P (pre ++ (H.enc ++ b0.enc ++ tail)) f0 σ).2.2 = (recvSpec H b0).shift pre.length ∧
     (xRun hack P (pre ++ (H.enc ++ b0.enc ++ tail)) f0 σ).1.st = terminalSt H ∧
     (pre ++ (H.enc ++ b0.enc ++ tail)).drop (xRun hack P (pre ++ (H.enc ++ b0.enc ++ tail)) f0 σ).2.2.consumed = tail := by
-  rcases x_run_inv hack f0 r wr0 P I H b0 tail pre X σ with
+  rcases x_run_inv hack f0 r wr0 P I H b0 tail pre X htail σ with
     ⟨hAB, _⟩ | ⟨hst, _⟩ | ⟨hC, _⟩ | ⟨hst, _⟩ | ⟨hw, hoff, f1, o', S, hsh, hri⟩
   · have hst : (xRun hack P (pre ++ (H.enc ++ b0.enc ++ tail)) f0 σ).1.st = .prepare ∨
         (xRun hack P (pre ++ (H.enc ++ b0.enc ++ tail)) f0 σ).1.st = .sendRequest := by
@@ -265,15 +266,15 @@ theorem SendSpec_unique (r : AReq) (wr0 : BodyWriter) (P w₁ w₂ : Bytes) (hm 
     exactly the payload (`SendSpec`), and — bodiless or `Content-Length` — byte-identical request bytes.
     (For a chunked request body the chunk boundaries follow the buffers; the payload coded is the same.) -/
 theorem C01_exchange_independent (hack : Bool) (f0 : Flow) (r : AReq) (wr0 : BodyWriter) (P : Bytes) (I H : Head) (b0 : BPos)
-    (tail pre : Bytes) (X : XSetup hack f0 r wr0 P I H b0 pre) (σ₁ σ₂ : List IoStep)
+    (tail pre : Bytes) (X : XSetup hack f0 r wr0 P I H b0 pre) (htail : b0.isClose = true → tail = []) (σ₁ σ₂ : List IoStep)
     (h1 : recvDone (xRun hack P (pre ++ (H.enc ++ b0.enc ++ tail)) f0 σ₁).1 = true)
     (h2 : recvDone (xRun hack P (pre ++ (H.enc ++ b0.enc ++ tail)) f0 σ₂).1 = true) :
     (xRun hack P (pre ++ (H.enc ++ b0.enc ++ tail)) f0 σ₁).2.2 = (xRun hack P (pre ++ (H.enc ++ b0.enc ++ tail)) f0 σ₂).2.2 ∧
     (xRun hack P (pre ++ (H.enc ++ b0.enc ++ tail)) f0 σ₁).1.st = (xRun hack P (pre ++ (H.enc ++ b0.enc ++ tail)) f0 σ₂).1.st ∧
     (wr0.mode ≠ .chunked →
       (xRun hack P (pre ++ (H.enc ++ b0.enc ++ tail)) f0 σ₁).2.1 = (xRun hack P (pre ++ (H.enc ++ b0.enc ++ tail)) f0 σ₂).2.1) := by
-  obtain ⟨a1, a2, a3, a4, _⟩ := C01_exchange_outcome hack f0 r wr0 P I H b0 tail pre X σ₁ h1
-  obtain ⟨b1, b2, b3, b4, _⟩ := C01_exchange_outcome hack f0 r wr0 P I H b0 tail pre X σ₂ h2
+  obtain ⟨a1, a2, a3, a4, _⟩ := C01_exchange_outcome hack f0 r wr0 P I H b0 tail pre X htail σ₁ h1
+  obtain ⟨b1, b2, b3, b4, _⟩ := C01_exchange_outcome hack f0 r wr0 P I H b0 tail pre X htail σ₂ h2
   refine ⟨by rw [a3, b3], by rw [a4, b4], fun hm => ?_⟩
   have hw := SendSpec_unique r wr0 P _ _ hm a1 b1
   cases hx : (xRun hack P (pre ++ (H.enc ++ b0.enc ++ tail)) f0 σ₁).2.1 with
@@ -361,6 +362,53 @@ def xMid : List IoStep := (List.range 120).map fun i => { m := i / 2, cap := 40,
 #guard (xRun true xPayload xStreamEx xPostEx xHuge).2.2 == (xRun true xPayload xStreamEx xPostEx xMid).2.2
 #guard (xRun true xPayload xStreamEx xPostEx xHuge).2.2.consumed == c11Head.enc.length + xHead.enc.length + 5
 
+/-- non-vacuity, close-delimited: `HTTP/1.1 200 OK` without framing fields, then `hello`, then the
+    connection ends; the body is everything that follows the head, and the connection is marked must-close -/
+def xHeadC : Head := { ver := 1, d1 := 50, d2 := 48, d3 := 48, reason := some [79, 75], fields := [] }
+def xBodyC : BPos := .close [104, 101, 108, 108, 111]
+def isCloseR : Except Fault BodyReader → Bool | .ok .close => true | _ => false
+theorem isCloseR_eq (x : Except Fault BodyReader) (h : isCloseR x = true) : x = .ok .close := by
+  unfold isCloseR at h; split at h <;> simp_all
+theorem xRespOkC : RespOk true xHeadC xBodyC .get where
+  hw := Head.wf_of_wfb _ (by decide +kernel)
+  hs := by decide +kernel
+  hc := by decide +kernel
+  h100 := by decide +kernel
+  hn := by intro f hf; simp [xHeadC] at hf
+  hsafe := fun _ => Or.inl (by decide +kernel)
+  hb := trivial
+  hframe := isCloseR_eq _ (by decide +kernel)
+
+example : XSetup true xNew xNew.call.analyzeRequest.1.req BodyWriter.newNone [] c11Head xHeadC xBodyC [] where
+  send := sendSetup_of_new .get .h11 d10Call.req.uri [] rfl (isOkUnit_eq _ (by decide +kernel))
+  hnd := by decide +kernel
+  resp := xRespOkC
+  int := c11Interim
+  hpre := Or.inr ⟨by decide +kernel, rfl⟩
+
+def xStreamC : Bytes := xHeadC.enc ++ xBodyC.enc
+#guard recvDone (xRun true [] xStreamC xNew xTiny).1
+#guard recvDone (xRun true [] xStreamC xNew xHuge).1
+#guard (xRun true [] xStreamC xNew xTiny).2 == (xRun true [] xStreamC xNew xHuge).2
+#guard (xRun true [] xStreamC xNew xHuge).2.2.body == [104, 101, 108, 108, 111]
+#guard (xRun true [] xStreamC xNew xTiny).1.closeReasons.contains .closeDelimited
+
+/-- **C01 (whole exchange, completion).** After any schedule whatsoever — buffers too small for a line,
+    bytes withheld, a caller that gave up waiting or did not — once everything the server sends for this
+    exchange has arrived and the caller's buffer holds the longest head line and the smallest chunk (6
+    bytes), a bounded number of further calls (head lines + payload bytes + server bytes + 9) completes the
+    exchange: no schedule can wedge the flow, on either side. -/
+theorem C01_exchange_live (hack : Bool) (f0 : Flow) (r : AReq) (wr0 : BodyWriter) (P : Bytes) (I H : Head) (b0 : BPos)
+    (tail pre : Bytes) (X : XSetup hack f0 r wr0 P I H b0 pre) (htail : b0.isClose = true → tail = []) (σ full : List IoStep)
+    (hfull : ∀ s ∈ full, s.full r (pre.length + (H.enc.length + b0.enc.length)))
+    (hlen : (headUnits r).length + P.length + (pre.length + (H.enc.length + b0.enc.length)) + 9 ≤ full.length) :
+    recvDone (xRun hack P (pre ++ (H.enc ++ b0.enc ++ tail)) f0 (σ ++ full)).1 = true := by
+  unfold xRun
+  rw [List.foldl_append]
+  have hinv := x_run_inv hack f0 r wr0 P I H b0 tail pre X htail σ
+  unfold xRun at hinv
+  exact x_live_aux hack f0 r wr0 P I H b0 tail pre X htail _ _ hinv (Or.inr (xMeasure_le r P _ _)) full hfull (by omega)
+
 /-! C01 across a redirect: the flow `as_new_flow` builds is again a valid start of a (bodiless) exchange, and
     the stream position is handed over exactly. -/
 
@@ -407,6 +455,7 @@ theorem C01_pipeline (hack : Bool)
     (f₁ : Flow) (r₁ : AReq) (w₁ : BodyWriter) (P₁ : Bytes) (I₁ H₁ : Head) (b₁ : BPos) (pre₁ : Bytes)
     (f₂ : Flow) (r₂ : AReq) (w₂ : BodyWriter) (P₂ : Bytes) (I₂ H₂ : Head) (b₂ : BPos) (pre₂ tail : Bytes)
     (X₁ : XSetup hack f₁ r₁ w₁ P₁ I₁ H₁ b₁ pre₁) (X₂ : XSetup hack f₂ r₂ w₂ P₂ I₂ H₂ b₂ pre₂)
+    (hc₁ : b₁.isClose = false) (htail : b₂.isClose = true → tail = [])
     (σ₁ σ₂ : List IoStep)
     (hd₁ : recvDone (xRun hack P₁ (pre₁ ++ (H₁.enc ++ b₁.enc ++ (pre₂ ++ (H₂.enc ++ b₂.enc ++ tail)))) f₁ σ₁).1 = true)
     (hd₂ : recvDone (xRun hack P₂
@@ -416,6 +465,6 @@ theorem C01_pipeline (hack : Bool)
         ((pre₁ ++ (H₁.enc ++ b₁.enc ++ (pre₂ ++ (H₂.enc ++ b₂.enc ++ tail)))).drop
           (xRun hack P₁ (pre₁ ++ (H₁.enc ++ b₁.enc ++ (pre₂ ++ (H₂.enc ++ b₂.enc ++ tail)))) f₁ σ₁).2.2.consumed) f₂ σ₂).2.2
       = (recvSpec H₂ b₂).shift pre₂.length := by
-  obtain ⟨_, _, _, _, hrest⟩ := C01_exchange_outcome hack f₁ r₁ w₁ P₁ I₁ H₁ b₁ _ pre₁ X₁ σ₁ hd₁
+  obtain ⟨_, _, _, _, hrest⟩ := C01_exchange_outcome hack f₁ r₁ w₁ P₁ I₁ H₁ b₁ _ pre₁ X₁ (by rw [hc₁]; intro h; cases h) σ₁ hd₁
   rw [hrest] at hd₂ ⊢
-  exact (C01_exchange_outcome hack f₂ r₂ w₂ P₂ I₂ H₂ b₂ tail pre₂ X₂ σ₂ hd₂).2.2.1
+  exact (C01_exchange_outcome hack f₂ r₂ w₂ P₂ I₂ H₂ b₂ tail pre₂ X₂ htail σ₂ hd₂).2.2.1
